@@ -152,14 +152,16 @@ func (s *Store[H]) Stop(ctx context.Context) error {
 	// signal to prevent further writes to Store
 	select {
 	case s.writes <- nil:
-		s.cancel()
 	case <-ctx.Done():
 		return ctx.Err()
 	}
-	// wait till it is done writing
+	// wait till it is done writing; the flush loop's context is cancelled only afterwards, so that the batches
+	// still queued in front of the stop signal are processed like any other (the head is advanced over them)
 	select {
 	case <-s.writesDn:
+		s.cancel()
 	case <-ctx.Done():
+		s.cancel()
 		return ctx.Err()
 	}
 
